@@ -270,16 +270,18 @@ class CallMixin(object):
             self.path.oblige(self.oblname("decreases"), z3.And(m_callee >= 0, m_callee < m_caller), kind="decreases")
         elif cur is not None and cur.verifying and getattr(cur, "fullname", None) == callee:
             raise OutOfSubset("recursive call without a decreases clause")
-        for etype, when in c.raises_:
-            w = self.spec(when, env)
-            if self.path.choose(w if isinstance(w, bool) else z3bool(w)):
-                raise PyRaise(etype, origin="raised by %s (contract)" % callee)
-        for etype, _note in c.may_raise_:
-            if self.path.nondet("may_raise"):
-                raise PyRaise(etype, origin="may be raised by %s (contract)" % callee)
         from .verify import snapshot as _snap
         _memo = {}
         self.path.event("call", callee, {k_: _snap(v_, _memo) for k_, v_ in env.vars.items()})
+        for etype, when in c.raises_:
+            w = self.spec(when, env)
+            if self.path.choose(w if isinstance(w, bool) else z3bool(w)):
+                self.path.event("call_raised", callee, etype)
+                raise PyRaise(etype, origin="raised by %s (contract)" % callee)
+        for etype, _note in c.may_raise_:
+            if self.path.nondet("may_raise"):
+                self.path.event("call_raised", callee, etype)
+                raise PyRaise(etype.lstrip("="), origin="may be raised by %s (contract)" % callee)
         if c.init_fields_ is not None and env.has("self") and isinstance(env.lookup("self"), Inst):
             inst = env.lookup("self")
             for fld, t in c.init_fields_.items():
